@@ -72,6 +72,19 @@ func layoutSection(rng *rand.Rand, plain []byte, bm *pairBitmap, forceCtl bool) 
 				r = (uint16(c)+r)*52845 + 22719
 			}
 		}
+		if binary && tries < 40 && rng.IntN(6) == 0 {
+			// all four cipher bytes from what a case-folding or table-driven digit
+			// test may confuse with hexadecimal digits: the digits themselves, the
+			// control bytes and punctuation that differ from them in one bit, and
+			// white space behind the first byte
+			const al = "0123456789abcdefABCDEF\x10\x11\x12\x13\x14\x15\x16\x17\x18\x19\x01\x02\x06@`GgPp:/ \t\r\n"
+			r := ref.EexecKey
+			for i := 0; i < 4; i++ {
+				c := al[rng.IntN(len(al))]
+				prefix[i] = c ^ byte(r>>8)
+				r = (uint16(c)+r)*52845 + 22719
+			}
+		}
 		cipher = ref.Encrypt(append(prefix[:], plain...), ref.EexecKey, nil)
 		if !binary || ref.LegalBinaryStart(cipher) {
 			break
